@@ -165,8 +165,8 @@ pub fn check(c: &OntCase, stats: &mut Stats) -> CheckResult {
 
 fn strategy(tier: Tier) -> BoxedStrategy<OntCase> {
     let max = if tier == Tier::Quick { 14 } else { 40 };
-    let rich = GenCfg::small().terms(2, max).recs(5).standard().with_flags(true).names(NameMode::Rich);
-    let capped = GenCfg::small().terms(2, max).recs(5).standard().with_flags(true).names(NameMode::Capped);
+    let rich = GenCfg::small().terms(2, max).recs(5).standard().with_flags(true).names(NameMode::Rich).bulk();
+    let capped = GenCfg::small().terms(2, max).recs(5).standard().with_flags(true).names(NameMode::Capped).bulk();
     prop_oneof![
         3 => gen::facts(rich.clone()).prop_map(|facts| OntCase { facts, path: PathSel::BuilderDefaults, noise: JaxNoise::default() }),
         3 => gen::facts(capped).prop_map(|facts| OntCase { facts, path: PathSel::Bin(3), noise: JaxNoise::default() }),
